@@ -366,6 +366,9 @@ func (a *BigInt) M__ipow__(other, modulus Object) (Object, error) {
 
 func (a *BigInt) M__lshift__(other Object) (Object, error) {
 	if b, ok := ConvertToBigInt(other); ok {
+		if (*big.Int)(b).Sign() < 0 {
+			return nil, negativeShiftCount
+		}
 		bb, err := b.GoInt()
 		if err != nil {
 			return nil, err
@@ -380,6 +383,9 @@ func (a *BigInt) M__lshift__(other Object) (Object, error) {
 
 func (a *BigInt) M__rlshift__(other Object) (Object, error) {
 	if b, ok := ConvertToBigInt(other); ok {
+		if (*big.Int)(a).Sign() < 0 {
+			return nil, negativeShiftCount
+		}
 		aa, err := a.GoInt()
 		if err != nil {
 			return nil, err
@@ -398,6 +404,9 @@ func (a *BigInt) M__ilshift__(other Object) (Object, error) {
 
 func (a *BigInt) M__rshift__(other Object) (Object, error) {
 	if b, ok := ConvertToBigInt(other); ok {
+		if (*big.Int)(b).Sign() < 0 {
+			return nil, negativeShiftCount
+		}
 		bb, err := b.GoInt()
 		if err != nil {
 			return nil, err
@@ -412,6 +421,9 @@ func (a *BigInt) M__rshift__(other Object) (Object, error) {
 
 func (a *BigInt) M__rrshift__(other Object) (Object, error) {
 	if b, ok := ConvertToBigInt(other); ok {
+		if (*big.Int)(a).Sign() < 0 {
+			return nil, negativeShiftCount
+		}
 		aa, err := a.GoInt()
 		if err != nil {
 			return nil, err
